@@ -14,6 +14,8 @@ pub struct Bytes<'a> {
 impl<'a> Bytes<'a> {
     #[inline]
     pub fn new(slice: &'a [u8]) -> Bytes<'a> {
+        #[cfg(all(httparse_verif, feature = "std"))]
+        verif_counters::add(&verif_counters::NEW, 1);
         let start = slice.as_ptr();
         // SAFETY: obtain pointer to slice end; start points to slice start.
         let end = unsafe { start.add(slice.len()) };
@@ -33,6 +35,8 @@ impl<'a> Bytes<'a> {
 
     #[inline]
     pub fn peek(&self) -> Option<u8> {
+        #[cfg(all(httparse_verif, feature = "std"))]
+        verif_counters::add(&verif_counters::PEEK, 1);
         if self.cursor < self.end {
             // SAFETY:  bounds checked
             Some(unsafe { *self.cursor })
@@ -50,6 +54,8 @@ impl<'a> Bytes<'a> {
     /// and `self.cursor.add(n)` is either `self.end` or points to a valid byte.
     #[inline]
     pub unsafe fn peek_ahead(&self, n: usize) -> Option<u8> {
+        #[cfg(all(httparse_verif, feature = "std"))]
+        verif_counters::add(&verif_counters::PEEK_AHEAD, 1);
         debug_assert!(n <= self.len());
         // SAFETY: by preconditions
         let p = unsafe { self.cursor.add(n) };
@@ -64,6 +70,11 @@ impl<'a> Bytes<'a> {
 
     #[inline]
     pub fn peek_n<'b: 'a, U: TryFrom<&'a [u8]>>(&'b self, n: usize) -> Option<U> {
+        #[cfg(all(httparse_verif, feature = "std"))]
+        {
+            verif_counters::add(&verif_counters::PEEK_N, 1);
+            verif_counters::add(&verif_counters::PEEK_N_BYTES, n as u64);
+        }
         // TODO: once we bump MSRV, use const generics to allow only [u8; N] reads
         // TODO: drop `n` arg in favour of const
         // let n = core::mem::size_of::<U>();
@@ -87,6 +98,11 @@ impl<'a> Bytes<'a> {
     /// Caller must ensure that Bytes hasn't been advanced/bumped by more than [`Bytes::len()`].
     #[inline]
     pub unsafe fn advance(&mut self, n: usize) {
+        #[cfg(all(httparse_verif, feature = "std"))]
+        {
+            verif_counters::add(&verif_counters::ADVANCE, 1);
+            verif_counters::add(&verif_counters::ADVANCE_BYTES, n as u64);
+        }
         self.cursor = self.cursor.add(n);
         debug_assert!(self.cursor <= self.end, "overflow");
     }
@@ -157,6 +173,16 @@ impl<'a> Bytes<'a> {
     /// Must ensure invariant `bytes.start() <= ptr && ptr <= bytes.end()`.
     #[inline]
     pub unsafe fn set_cursor(&mut self, ptr: *const u8) {
+        #[cfg(all(httparse_verif, feature = "std"))]
+        {
+            verif_counters::add(&verif_counters::SET_CURSOR, 1);
+            if (ptr as usize) < (self.cursor as usize) {
+                verif_counters::add(
+                    &verif_counters::SET_CURSOR_BACK_BYTES,
+                    (self.cursor as usize - ptr as usize) as u64,
+                );
+            }
+        }
         debug_assert!(ptr >= self.start);
         debug_assert!(ptr <= self.end);
         self.cursor = ptr;
@@ -166,6 +192,8 @@ impl<'a> Bytes<'a> {
 impl AsRef<[u8]> for Bytes<'_> {
     #[inline]
     fn as_ref(&self) -> &[u8] {
+        #[cfg(all(httparse_verif, feature = "std"))]
+        verif_counters::add(&verif_counters::AS_REF, 1);
         // SAFETY: not moving position at all, so it's safe
         unsafe { slice_from_ptr_range(self.cursor, self.end) }
     }
@@ -185,6 +213,8 @@ impl Iterator for Bytes<'_> {
 
     #[inline]
     fn next(&mut self) -> Option<u8> {
+        #[cfg(all(httparse_verif, feature = "std"))]
+        verif_counters::add(&verif_counters::NEXT, 1);
         if self.cursor < self.end {
             // SAFETY: bounds checked dereference
             unsafe {
@@ -194,6 +224,61 @@ impl Iterator for Bytes<'_> {
             }
         } else {
             None
+        }
+    }
+}
+
+// Verification hook (H3): per-thread counters of cursor primitives, for the
+// linear-work check under /verif. Compiled only with `--cfg httparse_verif`.
+#[cfg(all(httparse_verif, feature = "std"))]
+#[allow(missing_docs)]
+pub mod verif_counters {
+    use std::cell::Cell;
+    use std::thread::LocalKey;
+
+    thread_local! {
+        pub static NEW: Cell<u64> = const { Cell::new(0) };
+        pub static PEEK: Cell<u64> = const { Cell::new(0) };
+        pub static PEEK_AHEAD: Cell<u64> = const { Cell::new(0) };
+        pub static PEEK_N: Cell<u64> = const { Cell::new(0) };
+        pub static PEEK_N_BYTES: Cell<u64> = const { Cell::new(0) };
+        pub static ADVANCE: Cell<u64> = const { Cell::new(0) };
+        pub static ADVANCE_BYTES: Cell<u64> = const { Cell::new(0) };
+        pub static SET_CURSOR: Cell<u64> = const { Cell::new(0) };
+        pub static SET_CURSOR_BACK_BYTES: Cell<u64> = const { Cell::new(0) };
+        pub static AS_REF: Cell<u64> = const { Cell::new(0) };
+        pub static NEXT: Cell<u64> = const { Cell::new(0) };
+    }
+
+    #[inline(always)]
+    pub fn add(k: &'static LocalKey<Cell<u64>>, n: u64) {
+        k.with(|c| c.set(c.get().wrapping_add(n)));
+    }
+
+    /// [new, peek, peek_ahead, peek_n, peek_n_bytes, advance, advance_bytes,
+    ///  set_cursor, set_cursor_back_bytes, as_ref, next]
+    pub fn snapshot() -> [u64; 11] {
+        [
+            NEW.with(Cell::get),
+            PEEK.with(Cell::get),
+            PEEK_AHEAD.with(Cell::get),
+            PEEK_N.with(Cell::get),
+            PEEK_N_BYTES.with(Cell::get),
+            ADVANCE.with(Cell::get),
+            ADVANCE_BYTES.with(Cell::get),
+            SET_CURSOR.with(Cell::get),
+            SET_CURSOR_BACK_BYTES.with(Cell::get),
+            AS_REF.with(Cell::get),
+            NEXT.with(Cell::get),
+        ]
+    }
+
+    pub fn reset() {
+        for k in [
+            &NEW, &PEEK, &PEEK_AHEAD, &PEEK_N, &PEEK_N_BYTES, &ADVANCE, &ADVANCE_BYTES,
+            &SET_CURSOR, &SET_CURSOR_BACK_BYTES, &AS_REF, &NEXT,
+        ] {
+            k.with(|c| c.set(0));
         }
     }
 }
